@@ -17,12 +17,15 @@ from cfdppy.handler.dest import TransactionStep as DStep  # noqa: E402
 DEST_PREFIXES = {
     "idle": [], "md": ["MD"], "md_fd": ["MD", "FD"], "md_fd_fd": ["MD", "FD", "FD"],
     "eof_missing": ["MD", "FD", "EOF", "TICK"], "fd_first": ["FD"], "md_eof_complete": ["MD", "FD0", "EOF"],
+    # complete delivery already reported (Finished PDU sent, its ACK outstanding)
+    "delivered_reported": ["MD", "FD0", "EOF", "TICK0"],
 }
 EXPECT_STEP = {
     "idle": (DStep.IDLE,), "md": (DStep.RECEIVING_FILE_DATA,), "md_fd": (DStep.RECEIVING_FILE_DATA,),
     "md_fd_fd": (DStep.RECEIVING_FILE_DATA,),
     "eof_missing": (DStep.WAITING_FOR_MISSING_DATA, DStep.RECV_FILE_DATA_WITH_CHECK_LIMIT_HANDLING),
     "fd_first": (DStep.WAITING_FOR_METADATA,), "md_eof_complete": (DStep.SENDING_EOF_ACK_PDU,),
+    "delivered_reported": (DStep.WAITING_FOR_FINISHED_ACK,),
 }
 CANCEL_CONDS = [ConditionCode.CANCEL_REQUEST_RECEIVED, ConditionCode.POSITIVE_ACK_LIMIT_REACHED,
                 ConditionCode.FILESTORE_REJECTION, ConditionCode.CHECK_LIMIT_REACHED]
@@ -47,6 +50,8 @@ def h_dest(ctx, mode, prefix, how):
         if ev == "FD0":  # whole file in one PDU
             ctx.assume(S <= hdst.LMAX)
             o = sc.fd(0, S)
+        elif ev == "TICK0":
+            o = sc.tick0()
         elif ev == "TICK":
             o = sc.tick(f"dtp{sc.n}")
             sc.n += 1
@@ -126,6 +131,11 @@ def h_dest(ctx, mode, prefix, how):
             # EOF not yet verified => the delivery is incomplete
             ctx.prop("incomplete_file_deleted_when_disposition", deleted == disposition,
                      lambda: {"sig": f"deleted={deleted} disposition={disposition}"})
+        if prefix == "delivered_reported":
+            # the delivery was complete and reported so (Finished PDU, Transaction-Finished) before the
+            # cancel request: only an INCOMPLETE file is subject to the disposition
+            ctx.prop("complete_file_not_deleted", not deleted,
+                     lambda: {"sig": f"completely delivered file deleted by a late cancel request (disposition={disposition})"})
     if deleted:
         ctx.prop("file_gone", RESOLVED not in fs.files)
         ctx.prop("status_discarded", fin[0][4] == FileStatus.DISCARDED_DELIBERATELY)
@@ -193,12 +203,12 @@ def plan(tier):
         for pre in DEST_PREFIXES:
             if mode == "unack" and pre in ("fd_first",):
                 continue
-            if mode == "unack" and pre == "md_eof_complete":
+            if mode == "unack" and pre in ("md_eof_complete", "delivered_reported"):
                 continue
             for how in ("own", "other", "eofc"):
                 if pre == "idle" and how == "eofc" and mode == "unack":
                     continue
-                if pre == "md_eof_complete" and how == "eofc":
+                if pre in ("md_eof_complete", "delivered_reported") and how == "eofc":
                     continue
                 specs.append(Spec(f"dest/{mode}/{pre}/{how}", "vf.harness.c12:h_dest",
                                   {"mode": mode, "prefix": pre, "how": how}, twin_share=0.2))
